@@ -41,6 +41,8 @@ def run(cx: Cx):
         check_pure(cx, f"{DW}.{name}")
     for name in ('get_moore_neighbours', 'get_neumann_neighbours'):
         check_result_fresh(cx, f"{DW}.{name}")
+    from .common import check_no_stateful_memo
+    check_no_stateful_memo(cx)
 
 
 def _check_query(cx: Cx, fn, manhattan: bool):
